@@ -1,0 +1,37 @@
+//go:build verif
+
+package protocol
+
+import (
+	"github.com/enfein/mieru/v3/pkg/appctl/appctlpb"
+	"github.com/enfein/mieru/v3/pkg/common"
+)
+
+// Exports for the external verification harness (property C16). Add-only; compiled only with -tags verif.
+
+// VerifC16MaxPaddingSizeWithTrafficPattern exposes maxPaddingSizeWithTrafficPattern.
+// position: 0 = middle padding, 1 = end padding, anything else is passed through.
+func VerifC16MaxPaddingSizeWithTrafficPattern(mtu int, transport common.TransportProtocol, fragmentSize int, existingPaddingSize int, tp *appctlpb.TrafficPattern, position int) int {
+	return maxPaddingSizeWithTrafficPattern(mtu, transport, fragmentSize, existingPaddingSize, tp, paddingPosition(position))
+}
+
+// VerifC16MaxPaddingSize exposes maxPaddingSize.
+func VerifC16MaxPaddingSize(mtu int, transport common.TransportProtocol, fragmentSize int, existingPaddingSize int) int {
+	return maxPaddingSize(mtu, transport, fragmentSize, existingPaddingSize)
+}
+
+// VerifC16LowEntropySendConfig runs Session.lowEntropySendConfig on a bare session with the
+// given role, traffic pattern and clientUseLowEntropy flag.
+func VerifC16LowEntropySendConfig(tp *appctlpb.TrafficPattern, isClient bool, clientUsed bool) (mode int32, rotation int32, send bool) {
+	s := &Session{isClient: isClient, trafficPattern: tp}
+	s.clientUseLowEntropy.Store(clientUsed)
+	m, r, ok := s.lowEntropySendConfig()
+	return int32(m), int32(r), ok
+}
+
+const VerifC16PacketOverhead = packetOverhead
+
+const (
+	VerifC16DataClientToServerLowEntropy = int(dataClientToServerLowEntropy)
+	VerifC16DataServerToClientLowEntropy = int(dataServerToClientLowEntropy)
+)
